@@ -381,11 +381,43 @@ class StartSequenceMonitor(Monitor):
                 self.violate('C03/sequence-0-started:by-the-automatic-start', f"{req['sender']} requested {namespec} "
                              f"whose start_sequence is application={app_seq} process={seq} as part of the automatic "
                              f"start of all applications at vt={vt(run.world)}", case=run.describe())
+        if in_distribution_plan and req['sender_state'] == 'OPERATION' and seq > 0:
+            # restart_sequence: refused while any instance has jobs in progress; served, it must not interleave with the
+            # start sequence that another instance is driving for the same application - a lower sequence process
+            # that this instance itself sees STARTING through the request of somebody else is not finished
+            w = run.world
+            for other_ns, (oapp, oprog) in run.procs.items():
+                if oapp != app_name or other_ns == namespec:
+                    continue
+                oseq = run.model[oapp]['programs'][oprog].get('start_sequence', 0)
+                if not 0 < oseq < seq:
+                    continue
+                theirs = [r for r in tr.open_starts if r['namespec'] == other_ns and not r['resolved'] and
+                          (r['sender'], r['inc']) != (req['sender'], req['inc']) and
+                          w.instances[r['sender']].alive and w.instances[r['sender']].inc == r['inc'] and
+                          tr.truth.get((r['target_nick'], other_ns)) in (10, 30)]
+                if not theirs:
+                    continue
+                self.count('foreign_sequence_checks')
+                try:
+                    seen = peek(w, req['sender'], 'supvisors.get_process_info', other_ns)[0]['statecode']
+                except Fault:
+                    continue
+                if seen in (10, 30):
+                    self.violate('C03/process-order:sequence-driven-by-another-instance',
+                                 f"{req['sender']} (restart_sequence, OPERATION) requested {namespec} (start_sequence "
+                                 f"{seq}) at vt={vt(w)} while it sees {other_ns} (start_sequence {oseq}) "
+                                 f"{'STARTING' if seen == 10 else 'BACKOFF'} through the request of "
+                                 f"{theirs[0]['sender']} on {theirs[0]['target_nick']}", case=run.describe())
         if automatic:
             self.count('automatic_emissions')
             # 3. sequence 0 is never started automatically: never by the automatic start of all applications, and by
             #    nothing else in DISTRIBUTION if it never ran (a running failure strategy may start it again)
-            if (app_seq == 0 or seq == 0) and namespec not in tr.ever_started and not in_distribution_plan:
+            #    (RESTART_APPLICATION after the crash of one of its processes starts the whole application, also the
+            #    processes of it that never ran)
+            app_ever_ran = any(ns.split(':')[0] == app_name for ns in tr.ever_started)
+            if (app_seq == 0 or seq == 0) and namespec not in tr.ever_started and not in_distribution_plan and \
+                    not (seq > 0 and app_ever_ran):
                 self.violate('C03/sequence-0-started', f"{req['sender']} in DISTRIBUTION requested {namespec} whose "
                              f"start_sequence is application={app_seq} process={seq} and which never ran",
                              case=run.describe())
@@ -840,6 +872,7 @@ class StopSequenceMonitor(Monitor):
         self.orders = {}        # (target nick, target inc) -> [(vt, method, src)]
         self.reroutes = []
         self.final_states = {}  # (nick, inc) -> last published state
+        self.first_closing = {}  # (nick, inc) -> first closing state published (RESTARTING / SHUTTING_DOWN)
         self.undelivered = {}   # (nick, inc) -> {peer nick: messages dropped when the instance stopped}
         self.stopping_since = {}
         self.stopped_at = {}
@@ -852,6 +885,8 @@ class StopSequenceMonitor(Monitor):
 
     def on_state(self, inst, payload):
         self.final_states[(inst.nick, inst.inc)] = payload['fsm_statename']
+        if payload['fsm_statename'] in ('RESTARTING', 'SHUTTING_DOWN'):
+            self.first_closing.setdefault((inst.nick, inst.inc), payload['fsm_statename'])
 
     def still_active(self, namespec, nicks, since=0.0):
         """ Instances (live) where the process is truly running or stopping, and has been so without interruption
@@ -1045,10 +1080,26 @@ class StopSequenceMonitor(Monitor):
                     pass
             if unfinished:
                 self.count('closing_runs_not_finished_when_the_run_ends')
+            # a second request issued before the first one reached the Master (re-routing in flight) may be the one
+            # that is carried out: then every instance receives that kind
+            second = closing.get('second')
+            if second:
+                self.count('closing_runs_with_a_second_request')
+            # the request that is carried out is the one that reached the Master first (the first one may still be
+            # on its way, re-routed by the instance that received it): what the Master first published says which
+            carried = {'RESTARTING': 'restart', 'SHUTTING_DOWN': 'shutdown'}.get(
+                self.first_closing.get((closing['master'], closing['incs'][closing['master']])), kind)
+            if carried != kind and not (second and second['kind'] == carried):
+                self.violate('C09/order-kind', f"the Master {closing['master']} carried out a {carried} after "
+                             f"supvisors.{kind} on {closing['on']} (second request: {second})", case=run.describe())
+            kinds_received = set()
             # every instance that was alive and in the Master group received exactly one order
             for nick in (closing['members'] if not unfinished else ()):
                 inc = closing['incs'][nick]
-                got = [o for o in self.orders.get((nick, inc), []) if o[1] == 'supervisor.' + kind]
+                # orders of either kind: a second request (of any kind) received while the first one is being carried
+                # out changes nothing
+                got = [o for o in self.orders.get((nick, inc), [])
+                       if o[1] in ('supervisor.restart', 'supervisor.shutdown')]
                 inst_crashed = nick in closing.get('crashed', [])
                 if inst_crashed:
                     continue
@@ -1063,10 +1114,19 @@ class StopSequenceMonitor(Monitor):
                                  f'{nick} received {len(got)} supervisor.{kind} order(s) after supvisors.{kind} was '
                                  f"requested on {closing['on']} (Master {closing['master']}): {got}",
                                  case=run.describe())
+                elif got[0][1] != 'supervisor.' + carried:
+                    self.violate('C09/order-kind', f'{nick} received {got[0][1]} although the Master '
+                                 f"{closing['master']} carries out a {carried} (supvisors.{kind} requested on "
+                                 f"{closing['on']}, second request: {second})", case=run.describe())
+                else:
+                    kinds_received.add(got[0][1])
                 if self.final_states.get((nick, inc)) != 'FINAL':
                     self.violate(f'C09/not-final{mech}', f'{nick} last published {self.final_states.get((nick, inc))} '
                                  f'instead of FINAL after supvisors.{kind}', case=run.describe())
-            if closing['on'] != closing['master']:
+            if len(kinds_received) > 1:
+                self.violate('C09/order-kind', f'the instances received different orders {sorted(kinds_received)} after '
+                             f"supvisors.{kind} on {closing['on']} then {closing.get('second')}", case=run.describe())
+            if closing['on'] != closing['master'] and not closing.get('second'):
                 routed = [r for r in self.reroutes if r[0] == closing['on'] and r[2] == 'supvisors.' + kind]
                 self.count('reroute_checks')
                 if len(routed) != 1 or routed[0][1] != closing['master']:
